@@ -140,8 +140,8 @@ theorem build_digests (c : Cfg) (now : Nat) (sha256hex : Bytes → Bytes) (archi
     ∧ getStringArray p.md.header IndexTag.RPMTAG_PAYLOADDIGESTALT = .ok [sha256hex archive] := by
   intro p
   refine ⟨sig_header_sha256 [] _ (by simp), ?_, ?_⟩
-  · exact payload_digest ⟨c, now, sha256hex payload, sha256hex archive⟩
-  · exact archive_digest ⟨c, now, sha256hex payload, sha256hex archive⟩
+  · exact payload_digest (mkCtx c now (sha256hex payload) (sha256hex archive))
+  · exact archive_digest (mkCtx c now (sha256hex payload) (sha256hex archive))
 
 /-! ### non-vacuity -/
 -- a sink that takes 1 byte, is interrupted, then takes the rest: hashed = accepted = everything
